@@ -417,16 +417,36 @@ namespace chaiscript {
       Boxed_Value eval_internal(const chaiscript::detail::Dispatch_State &t_ss) const override {
         chaiscript::eval::detail::Function_Push_Pop fpp(t_ss);
 
+        bool global_created_with_value = false;
+
         auto params = [&]() {
           // The RHS *must* be evaluated before the LHS
           // consider `var range = range(x)`
           // if we declare the variable in scope first, then the name lookup fails
           // for the RHS
           auto rhs = this->children[1]->eval(t_ss);
+
+          if (m_oper == Operators::Opers::assign && this->children[0]->identifier == AST_Node_Type::Global_Decl
+              && !this->children[0]->children.empty() && this->children[0]->children[0]->identifier != AST_Node_Type::Reference) {
+            // `global x = value`: a global that does not exist yet is created together with its value,
+            // under the engine's lock. Creating it undefined and assigning afterwards let other threads
+            // find the name while its value was still being written.
+            auto value = detail::clone_if_necessary(std::move(rhs), m_clone_loc, t_ss);
+            value.reset_return_value();
+            auto stored = t_ss->add_global_no_throw(value, this->children[0]->children[0]->text);
+            global_created_with_value = !value.is_null() && stored.get_const_ptr() == value.get_const_ptr();
+            std::array<Boxed_Value, 2> p{std::move(stored), std::move(value)};
+            return p;
+          }
+
           auto lhs = this->children[0]->eval(t_ss);
           std::array<Boxed_Value, 2> p{std::move(lhs), std::move(rhs)};
           return p;
         }();
+
+        if (global_created_with_value) {
+          return params[0];
+        }
 
         if (params[0].is_return_value()) {
           throw exception::eval_error("Error, cannot assign to temporary value.");
